@@ -655,6 +655,7 @@ func (f *Frame) execNext(x *ssa.Next, st *State) {
 		r := u.fresh("rune", SInt)
 		u.assume(st, and(app(SBool, ">=", r, intLit(0)), implies(eq(width, intLit(1)), eq(r, strAt(it.m.T, pos)))))
 		st.heap[it.seenKey] = u.define("strpos", app(SInt, "+", pos, width))
+		u.logWrite(it.seenKey, SInt)
 		f.set(x, &V{Typ: x.Type(), F: []*V{{Typ: tup.At(0).Type(), T: ok}, {Typ: tup.At(1).Type(), T: pos}, {Typ: tup.At(2).Type(), T: r}}})
 		return
 	}
@@ -667,6 +668,7 @@ func (f *Frame) execNext(x *ssa.Next, st *State) {
 	u.assume(st, implies(ok, and(nz, sel(dom, k), not(sel(seen, k)))))
 	u.assume(st, implies(not(ok), implies(nz, T{fmt.Sprintf("(forall ((k!q %s)) (! (=> (select %s k!q) (select %s k!q)) :pattern ((select %s k!q))))", mk.ks, dom.S, seen.S, dom.S), SBool})))
 	st.heap[it.seenKey] = u.define("seen", ite(ok, sto(seen, k, tTrue), seen))
+	u.logWrite(it.seenKey, arrSort(mk.ks, SBool))
 	var kv *V
 	if tup.At(1).Type() != types.Typ[types.Invalid] {
 		kv = u.keyVal(tup.At(1).Type(), k)
